@@ -12,7 +12,7 @@ func LeafAlphabet(big bool) []*Node {
 		{K: NField, Field: f, V: Int(-3)},
 		{K: NCmp, Field: f, Cmp: ">=", V: Int(7)},
 		{K: NRange, Field: f, Lo: Int(1), Hi: Int(5), IncLo: true, IncHi: true},
-		{K: NTerm, V: RawWord(`'s "t'`)},
+		{K: NTerm, V: RawWord("'s t'")},
 	}
 	if big {
 		leaves = append(leaves,
